@@ -1010,7 +1010,18 @@ impl RustRuleEngine {
                                 facts
                                     .get_nested(expr)
                                     .or_else(|| facts.get(expr))
-                                    .unwrap_or(crate::types::Value::Expression(expr.clone()))
+                                    .unwrap_or_else(|| {
+                                        // A plain reference to an absent field reads as null,
+                                        // exactly like an absent left-hand side
+                                        if expr
+                                            .chars()
+                                            .all(|c| c.is_alphanumeric() || c == '_' || c == '.')
+                                        {
+                                            crate::types::Value::Null
+                                        } else {
+                                            crate::types::Value::Expression(expr.clone())
+                                        }
+                                    })
                             }
                         }
                     }
